@@ -58,7 +58,7 @@ def run(ctx):
     if len(graphs) != r.states:
         raise core.MachineryError("dump has %d graphs, TLC found %d states" % (len(graphs), r.states))
     rng = random.Random("C21-%d" % ctx.seed)
-    budget = 350 if q else 3000
+    budget = 250 if q else 3000
     if len(graphs) > budget:
         graphs = rng.sample(graphs, budget)
     else:
